@@ -164,19 +164,29 @@ func setEq(a, b []string) bool {
 
 // "the wildcard permits anything, an empty constraint demands that the attribute is
 // absent, and otherwise the certificate's values must be exactly the listed values"
-// Silent on: the one-element list [""] on either side, repeated certificate values,
-// a "*" inside a longer constraint list.
+// Silent on: the one-element list [""] on either side, a "*" inside a longer constraint
+// list, and repeated certificate values WHEN the set of values equals the set of listed
+// values (is ["a","a"] "exactly" ["a"]?).  Repeated values do not make the text ambiguous
+// when the sets differ: a listed value that the certificate lacks, or a value that is not
+// listed, must be rejected however often other values are repeated; and with an empty
+// constraint any value present must be rejected.
 func oracleAttr(cs, vs []string) tv {
 	if len(cs) == 1 && cs[0] == "*" {
 		return T
 	}
-	if (len(cs) == 1 && cs[0] == "") || (len(vs) == 1 && vs[0] == "") || hasDup(vs) || contains(cs, "*") {
+	if (len(cs) == 1 && cs[0] == "") || (len(vs) == 1 && vs[0] == "") || contains(cs, "*") {
 		return U
 	}
 	if len(cs) == 0 {
 		return b2tv(len(vs) == 0)
 	}
-	return b2tv(setEq(cs, vs))
+	if !setEq(cs, vs) {
+		return F
+	}
+	if hasDup(vs) {
+		return U
+	}
+	return T
 }
 
 // the common name is one value: "*" anything, "" absent, otherwise equal
@@ -346,6 +356,8 @@ func attrKlass(cs, vs []string) string {
 		return "attr/star-in-list"
 	case (len(cs) == 1 && cs[0] == "") || (len(vs) == 1 && vs[0] == ""):
 		return "attr/empty-string-singleton"
+	case hasDup(vs) && len(cs) > 0 && !setEq(cs, vs):
+		return "attr/dup-values-other-set"
 	case hasDup(vs):
 		return "attr/dup-values"
 	case len(cs) == 0:
@@ -479,9 +491,9 @@ func genValues(r *lib.Rng, pool []string, allowEmptyString bool) ([]string, stri
 		return nil, "absent"
 	case 6, 7, 8, 9, 10, 11:
 		return p[:1], "one"
-	case 12, 13, 14, 15, 16, 17:
+	case 12, 13, 14, 15, 16:
 		return p[:r.Range(2, 3)], "several"
-	case 18:
+	case 17, 18:
 		if r.Bool() {
 			return []string{p[0], p[0]}, "dup"
 		}
@@ -512,6 +524,18 @@ func genConstraintList(r *lib.Rng, vals, pool []string, matchBias bool) ([]strin
 			}
 		}
 		return out
+	}
+	if hasDup(vals) && r.Chance(1, 3) {
+		// as many listed values as the certificate has values, but another set: the repeated
+		// value stands in for a listed value the certificate lacks
+		cs := dedup(vals)
+		for _, x := range pool {
+			if len(cs) < len(vals) && !contains(cs, x) {
+				cs = append(cs, x)
+			}
+		}
+		r.Shuffle(len(cs), func(i, j int) { cs[i], cs[j] = cs[j], cs[i] })
+		return cs, "same-count-other-set"
 	}
 	k := r.Intn(12)
 	if matchBias {
